@@ -66,6 +66,8 @@ type Fed struct {
 	Ctl    *Controller
 	Svcs   map[string]*Service
 	SDL    map[string]string
+	// a second gateway over the same services, configured with a prefix of the same priority list
+	neighbour *gateway.Gateway
 }
 
 // NewFed builds the gateway over in-process services. optOrder permutes the order in which the
@@ -89,7 +91,17 @@ func NewFed(spec *FedSpec, st *Store, r *rand.Rand, extra ...gateway.Option) (*F
 	f.Cap = &capPlanner{inner: &gateway.MinQueriesPlanner{}}
 	opts := []gateway.Option{gateway.WithPlanner(f.Cap), gateway.WithQueryerFactory(&qf), gateway.WithLogger(fedLogger{f})}
 	if spec.HasPrio {
-		opts = append(opts, gateway.WithLocationPriorities(spec.Priorities))
+		// the operator's list has room to spare, and a second gateway of the same operator is configured
+		// with the first entry of the very same list: neither may see anything of the other (Disturb)
+		pref := make([]string, len(spec.Priorities), len(spec.Priorities)+3)
+		copy(pref, spec.Priorities)
+		opts = append(opts, gateway.WithLocationPriorities(pref))
+		if len(pref) >= 2 {
+			nqf := gateway.QueryerFactory(func(ctx *gateway.PlanningContext, url string) graphql.Queryer { return f.Svcs[url] })
+			if nb, nerr := gateway.New(srcs, gateway.WithQueryerFactory(&nqf), gateway.WithLogger(fedLogger{f}), gateway.WithLocationPriorities(pref[:1])); nerr == nil {
+				f.neighbour = nb
+			}
+		}
 	}
 	opts = append(opts, extra...)
 	if r != nil {
@@ -103,6 +115,14 @@ func NewFed(spec *FedSpec, st *Store, r *rand.Rand, extra ...gateway.Option) (*F
 	// make the planner see the schema once so that Cap is filled
 	_, _ = gw.GetPlans(&gateway.RequestContext{Context: context.Background(), Query: "{ __typename }"})
 	return f, nil
+}
+
+// Disturb lets the neighbouring gateway (same operator, same priority list object, its own
+// configuration) plan the query first
+func (f *Fed) Disturb(query string) {
+	if f.neighbour != nil {
+		_, _ = f.neighbour.GetPlans(&gateway.RequestContext{Context: context.Background(), Query: query})
+	}
 }
 
 // Plan returns the plans of a query (no execution)
